@@ -534,3 +534,19 @@ Definition ewstep (fx : bool) (w : enc * cache) (o : ewop) : option ((enc * cach
   | EWRemove q b en => let '(c', r) := remove c q b en in Some ((enc_remove fx e b en, c'), r)
   | EWResume q p => Some (w, OBool (can_resume fx c q p))
   end.
+
+(** WrapperCache at protocol level: a failing Remove (which stops at the first failing cache) is followed by
+    Remove(seq, 0, MaxInt32), which reaches both caches *)
+Definition wremove_c (w : cache * cache) (q : nat) (b e : Z) : (cache * cache) * out :=
+  let '(w', r0, _) := wstep true w (Remove q b e) in
+  match r0 with
+  | OErr _ => (fst (fst (wstep true w' (Remove q 0 MaxInt32))), r0)
+  | _ => (w', r0)
+  end.
+
+Definition wpstep (w : cache * cache) (o : op) : (cache * cache) * out :=
+  match o with
+  | Remove q b e => wremove_c w q b e
+  | _ => let '(w', r, _) := wstep true w o in (w', r)
+  end.
+Definition wprun (w : cache * cache) (ops : list op) : cache * cache := fold_left (fun w o => fst (wpstep w o)) ops w.
